@@ -10,11 +10,9 @@
    PrintLeadingContent writes anything (YAML only), NUL-separated mode.
 
    printer state (resultsPrinter): firstTimePrinting, previousDocIndex,
-   previousFileIndex.  In the code previousDocIndex is assigned after every
-   printed node, previousFileIndex only in the firstTimePrinting branch; the
-   flag [fixp] of the functions below selects the repaired variant that also
-   assigns previousFileIndex after every node (the fix candidate), so that
-   both can be compared inside Coq.
+   previousFileIndex; both indices are assigned after every printed node
+   (previousFileIndex used to be assigned in the firstTimePrinting branch
+   only: repaired in /repo).
 
    Not modelled: the appendix reader (front matter), the multi-file
    printer writer (-s), colours; partial output of a node whose encoding
@@ -81,28 +79,28 @@ Definition node_events (cfg : pcfg) (j : N) (r : res) : list event :=
   lead_events cfg (r_lead r) ++ [Res (r_file r) (r_doc r) j (r_val r)] ++ (if nul_sep cfg then [Nul] else []).
 
 (* one iteration of the loop body *)
-Definition print_one (cfg : pcfg) (fixp : bool) (st : pstate) (j : N) (r : res) : pstate * list event :=
-  (mkPs (first_time st) (r_doc r) (if fixp then r_file r else prev_file st),
+Definition print_one (cfg : pcfg) (st : pstate) (j : N) (r : res) : pstate * list event :=
+  (mkPs (first_time st) (r_doc r) (r_file r),
    (if need_sep st r then doc_sep cfg else []) ++ node_events cfg j r).
 
-Fixpoint print_loop (cfg : pcfg) (fixp : bool) (st : pstate) (j : N) (rs : list res) : pstate * list event * status :=
+Fixpoint print_loop (cfg : pcfg) (st : pstate) (j : N) (rs : list res) : pstate * list event * status :=
   match rs with
   | [] => (st, [], Done)
   | r :: rs' =>
       if pfail r then (st, [], Failed)
       else
-        let '(st1, e1) := print_one cfg fixp st j r in
-        let '(st2, e2, s) := print_loop cfg fixp st1 (j + 1) rs' in
+        let '(st1, e1) := print_one cfg st j r in
+        let '(st2, e2, s) := print_loop cfg st1 (j + 1) rs' in
         (st2, e1 ++ e2, s)
   end.
 
 (* PrintResults *)
-Definition print_results (cfg : pcfg) (fixp : bool) (st : pstate) (rs : list res) : pstate * list event * status :=
+Definition print_results (cfg : pcfg) (st : pstate) (rs : list res) : pstate * list event * status :=
   match rs with
   | [] => (st, [], Done)
   | r0 :: _ =>
       let st1 := if first_time st then mkPs false (r_doc r0) (r_file r0) else st in
-      print_loop cfg fixp st1 0 rs
+      print_loop cfg st1 0 rs
   end.
 
 End Printer.
